@@ -410,6 +410,22 @@ example : ∀ c, exP.metric c ∈ exScores := by
   have h : c % 4 = 0 ∨ c % 4 = 1 ∨ c % 4 = 2 ∨ c % 4 = 3 := by omega
   rcases h with h | h | h | h <;> simp [exP, exScores, h] <;> decide +kernel
 
+/-- the infidelities a pure stabilizer target on `n` qubits can produce (the overlap of two stabilizer states is `0` or
+    `2^-k`, `0 ≤ k ≤ n` — cited fact), plus `np.inf` -/
+def stabInfidelities (n : Nat) : List Score :=
+  (Score.fin 1 :: (List.range (n + 1)).map fun k => Score.fin (1 - 1 / (2 ^ k : Rat))) ++ [Score.inf]
+
+/-- **Where the class-level theorems apply to `Infidelity`**: for stabilizer targets of up to 16 qubits the possible
+    scores are coherent for numpy's tolerances … -/
+theorem stabilizer_infidelities_coherent_up_to_16_qubits :
+    Coherent Tol.numpy (fun a => a ∈ stabInfidelities 16) :=
+  coherent_of_coherentOn Tol.numpy (stabInfidelities 16) (by decide +kernel)
+
+/-- … and from 17 qubits on they are not (`1-2^-16 ≈ 1-2^-17 ≈ 1-2^-18` but `1-2^-16 ≉ 1-2^-18` at `rtol = 1e-5`): there the
+    hall of fame of nearly orthogonal circuits can be out of order by design. -/
+theorem stabilizer_infidelities_incoherent_from_17_qubits :
+    coherentOn Tol.numpy (stabInfidelities 17) = false := by decide +kernel
+
 /-- float-noise neighbours are coherent too: `0.5` and `0.4999999999999999` are one class -/
 example : coherentOn Tol.numpy
     [Score.fin (1 / 2), Score.fin (4503599627370495 / 9007199254740992), Score.fin (3 / 4), Score.fin 0, Score.inf] = true := by
